@@ -304,8 +304,134 @@ func describeFrames(fs []frame.Frame) string {
 	return s
 }
 
+// ---- RC: a read racing with Close, CloseNow or a context expiry
+
+type c05RCParams struct {
+	K      connCfg
+	Closer string // Close | CloseNow | cancel
+}
+
+func (p c05RCParams) name() string { return "RC-" + p.Closer + "/" + p.K.String() }
+
+var c05RCStreams = map[string][]byte{}
+
+func c05RCSetup(prm c05RCParams) func(c *fw.Ctx, name string) explore.Setup {
+	return func(c *fw.Ctx, name string) explore.Setup {
+		msg := make([]byte, 700)
+		for i := range msg {
+			msg[i] = byte('a' + i%26)
+			if i%50 < 25 {
+				msg[i] = 'q' // compressible runs
+			}
+		}
+		k := prm.K
+		key := k.String()
+		frames, ok := c05RCStreams[key]
+		if !ok {
+			pl := msg
+			if k.Flate {
+				pl = (&deflate.Deflater{NoContextTakeover: k.readerNoTakeover()}).Message(msg)
+			}
+			a, b := len(pl)/3, 2*len(pl)/3
+			frames = append(frames, peerFrame(k, frame.Frame{Fin: false, Rsv1: k.Flate, Opcode: frame.OpBinary, Payload: pl[:a]})...)
+			frames = append(frames, peerFrame(k, frame.Frame{Fin: true, Opcode: frame.OpPing, Payload: []byte("mid")})...)
+			frames = append(frames, peerData(k, frame.OpCont, false, pl[a:b])...)
+			frames = append(frames, peerData(k, frame.OpCont, true, pl[b:])...)
+			c05RCStreams[key] = frames
+		}
+		return func(w *vs.World) func(bool) {
+			p := vpipe.New()
+			p.ShortReads = true
+			var got []byte
+			var readErr error
+			complete2 := false
+			w.GoHarness("main", true, func() {
+				conn := mkConn(p, k)
+				bg := vctx.Background()
+				ctx, cancel := vctx.WithCancel(bg)
+				w.GoHarness("peer", false, func() {
+					// the message arrives in two transport deliveries at scheduler-chosen moments
+					p.Send(frames[:len(frames)/2])
+					p.Send(frames[len(frames)/2:])
+				})
+				w.GoHarness("reader", true, func() {
+					_, r, err := conn.Reader(ctx)
+					if err != nil {
+						readErr = err
+						return
+					}
+					buf := make([]byte, 256)
+					for {
+						n, err := r.Read(buf)
+						got = append(got, buf[:n]...)
+						if err == io.EOF {
+							complete2 = true
+							return
+						}
+						if err != nil {
+							readErr = err
+							return
+						}
+					}
+				})
+				w.GoHarness("closer", true, func() {
+					switch prm.Closer {
+					case "Close":
+						conn.Close(websocket.StatusNormalClosure, "")
+					case "CloseNow":
+						conn.CloseNow()
+					case "cancel":
+						cancel()
+					}
+				})
+			})
+			return func(complete bool) {
+				if !complete {
+					return
+				}
+				locus := prm.Closer + "/" + k.String()
+				if w.Panic != "" {
+					violate(c, w, name, "C05/panic/RC-"+locus, w.Panic)
+					return
+				}
+				if w.Deadlock || w.HorizonHit {
+					c.OutcomeStr(name + "|stuck")
+					return // termination is C09's subject
+				}
+				c.OutcomeStr(fmt.Sprintf("%s|n=%d|complete=%v|err=%v", name, len(got)/100, complete2, readErr != nil))
+				if !bytes.HasPrefix(msg, got) {
+					violate(c, w, name, "C05/racing-read-returns-non-prefix/"+locus, fmt.Sprintf("the read racing with %s returned %d bytes that are not a prefix of the message (first difference at %d)", prm.Closer, len(got), firstDiff(msg, got)))
+					return
+				}
+				if complete2 && len(got) != len(msg) {
+					violate(c, w, name, "C05/racing-read-completes-short/"+locus, fmt.Sprintf("the read racing with %s reported the end of the message after %d of %d bytes", prm.Closer, len(got), len(msg)))
+				}
+			}
+		}
+	}
+}
+
+func firstDiff(a, b []byte) int {
+	for i := range b {
+		if i >= len(a) || a[i] != b[i] {
+			return i
+		}
+	}
+	return len(b)
+}
+
 func c05Scenarios(tier string) []scenario {
 	var scs []scenario
+	for _, k := range []connCfg{{Client: false}, {Client: true}, {Client: false, Flate: true}, {Client: true, Flate: true}, {Client: false, Flate: true, CNCT: true, SNCT: true}} {
+		for _, cl := range []string{"Close", "CloseNow", "cancel"} {
+			prm := c05RCParams{K: k, Closer: cl}
+			cfg := explore.Config{P: 2, E: 1, Horizon: 60e9}
+			if tier == "thorough" {
+				cfg = explore.Config{P: 3, E: 2, Horizon: 60e9}
+			}
+			scs = append(scs, scenario{Name: prm.name(), Cfg: cfg, Setup: c05RCSetup(prm)})
+		}
+	}
 	roles := []connCfg{{Client: false}, {Client: true}, {Client: false, Flate: true}, {Client: true, Flate: true}}
 	add := func(prm c05Params, quick, thorough explore.Config) {
 		name := prm.Name + "/" + prm.K.String()
